@@ -333,6 +333,12 @@ fn spawn_k<const KK: usize>(d: &ActorDecl) -> Spawned {
         }
         Entry::BuilderOnStream | Entry::BuilderOnStreamOwning => {
             let b = hannibal::build(actor);
+            // a handler timeout configured on the builder does not apply to stream-attached actors (C13: nothing
+            // being handled is ever abandoned); configured here so that this is exercised
+            let b = match d.timeout {
+                Some(t) => b.timeout(rt::dur(t)).fail_on_timeout(d.fail_on_timeout),
+                None => b,
+            };
             let sb = match d.mailbox {
                 Some(n) => b.bounded_on_stream(n, stream()),
                 None => b.on_stream(stream()),
@@ -344,6 +350,10 @@ fn spawn_k<const KK: usize>(d: &ActorDecl) -> Spawned {
             let wc = match d.mailbox {
                 Some(n) => b.bounded(n),
                 None => b.unbounded(),
+            };
+            let wc = match d.timeout {
+                Some(t) => wc.timeout(rt::dur(t)).fail_on_timeout(d.fail_on_timeout),
+                None => wc,
             };
             let sb = wc.non_restartable().with_stream(stream());
             if d.entry == Entry::BuilderWithStream { plain(sb.spawn(), obj) } else { own(sb.spawn_owning(), obj) }
